@@ -208,6 +208,31 @@ RedundancySignalAgreesAt(mode, tell, B, want, c2s, rbWant, cbr, Reserve, Z) ==
   \A f \in EncFrames(mode, tell, B, want, c2s, rbWant, cbr, Reserve, Z) : \A g \in Garbage :
      FrameAgrees(mode, tell, B, f, g)
 
+\* What a decoder may report for a frame of len bytes when the bit position is not observed: there is a bit
+\* position and there are symbol costs for which DecFrame yields exactly obs = [red, c2s, rb] ...
+DecFrameExplains(mode, len, obs) ==
+  IF mode = MODE_CELT \/ len <= 1 THEN ~obs.red /\ ~obs.c2s /\ obs.rb = 0
+  ELSE \E tell \in 1..(8 * len), c1 \in {0, 1, 12}, c2 \in {0, 1}, c3 \in {0, 7, 8} :
+          /\ c1 \in (IF IsHyb(mode) THEN FlagCost(obs.red) ELSE {0})
+          /\ c3 \in (IF IsHyb(mode) /\ obs.red THEN LenCost ELSE {0})
+          /\ (~obs.red => c2 = 0)
+          /\ (IsHyb(mode) /\ obs.red => obs.rb - 2 \in 0..255)         \* the size is an 8-bit symbol
+          /\ LET d == DecFrame(mode, tell, len, obs.red, obs.c2s, obs.rb - 2, tell + c1 + c2 + c3) IN
+             d.sane /\ ~d.plc /\ d.red = obs.red /\ d.c2s = obs.c2s /\ d.rb = obs.rb
+\* ... in closed form (theorem ExplainsClosedForm of Link_mc: equal to the above for every len <= 14):
+\* speech only: 2 <= rb <= len - 1; hybrid: 2 <= rb <= 257 and at least three bytes left for the main payload
+DecFrameAllows(mode, len, obs) ==
+  IF mode = MODE_CELT \/ len <= 1 \/ ~obs.red THEN ~obs.red /\ ~obs.c2s /\ obs.rb = 0
+  ELSE IF IsHyb(mode) THEN obs.rb \in 2..257 /\ len - obs.rb >= 3
+  ELSE obs.rb >= 2 /\ obs.rb <= len - 1
+
+\* the decoder cross-fades from a concealed frame ("transition") when a coded frame changes between the MDCT-only
+\* mode and the others without a redundant frame to bridge it; x = decoder state before the frame
+TransitionOf(x, mode, coded, red) ==
+  /\ coded /\ x.prevMode # 0 /\ ~red
+  /\ \/ mode = MODE_CELT /\ x.prevMode # MODE_CELT /\ ~x.prevRedundancy
+     \/ mode # MODE_CELT /\ x.prevMode = MODE_CELT
+
 \* a constant-rate packet is padded at packet level: the frame the decoder sees is the one written
 PaddingInvisible(toc, len, padTo) ==
   LET cfg == toc \div 4
